@@ -123,6 +123,19 @@ class C12(CheckBase):
             return canon.canon(_construct(_cls(name, kind), kind))
 
         relation = {}  # id(copy) -> id(source)
+        graveyard = []  # instances dropped from `live` stay referenced: an id() is never reused within a run
+        group = {}  # id(instance) -> representative id: instances connected by update_from_other_container (any direction,
+        # transitively) - these share nested values because of the known shallow-copy defect of that method
+
+        def find(i):
+            while group.get(i, i) != i:
+                i = group[i]
+            return i
+
+        def union(a, b):
+            group.setdefault(a, a)
+            group.setdefault(b, b)
+            group[find(a)] = find(b)
 
         def check(where, target=None, shape=''):
             for inst, model, name, kind, origin in live:
@@ -132,7 +145,9 @@ class C12(CheckBase):
                     sig = f'{where.split(":")[0]}:unrelated:{origin}'
                     if target is not None:
                         t_inst, t_origin = target
-                        if relation.get(id(t_inst)) == id(inst):
+                        if id(t_inst) in group and id(inst) in group and find(id(t_inst)) == find(id(inst)):
+                            sig = f'shares-within-update_from_other_container-group:{shape}'
+                        elif relation.get(id(t_inst)) == id(inst):
                             sig = f'write-to-copy-changes-source:{t_origin}:{shape}'
                         elif relation.get(id(inst)) == id(t_inst):
                             sig = f'write-to-source-changes-copy:{origin}:{shape}'
@@ -214,6 +229,7 @@ class C12(CheckBase):
                         inst.Handle = src.Handle
                     inst.update_from_other_container(src)
                     relation[id(inst)] = id(src)
+                    union(id(inst), id(src))
                     live.append([inst, canon.canon(inst), name, kind, 'update_from_other_container'])
                 elif k == 'write' and live:
                     entry = live[op['pick'] % len(live)]
@@ -297,6 +313,7 @@ class C12(CheckBase):
                 continue  # a generated value the class does not accept: not the subject of this property
             check(where, target, shape)
             if len(live) > 14:
+                graveyard.append(live[0][0])
                 del live[0]
         ctx.nontrivial = writes >= 5 and parses >= 3
         import hashlib
